@@ -131,7 +131,7 @@ def cc1(tier):
     types = ['LINKED', 'PERMUTATION', 'UNORDERED', 'UNORDERED_NOREPL']
     n_choices = [2, 3]
     n_opts = [2, 3] if tier == 'quick' else [2, 3, 4]
-    placements = ['permanent', 'second_under_first', 'hier', 'mutex', 'perm_cond']
+    placements = ['permanent', 'permanent_shared', 'second_under_first', 'hier', 'mutex', 'perm_cond']
     for ctype in types:
         for nc in n_choices:
             for no in n_opts:
@@ -157,6 +157,15 @@ def _cc_specs(ctype, nc, no, placement, tier):
         spec = base()
         for cid in cids:
             add_choice(spec, cid, 'a', no)
+        spec['cc'] = [[ctype, cids]]
+        yield spec
+    elif placement == 'permanent_shared':
+        # all constrained choices list the SAME option nodes (different originating nodes)
+        spec = base()
+        spec['nodes'] = [f'b{i}' for i in range(nc)] + [f'o{i}' for i in range(no)]
+        spec['edges'] = [['a', f'b{i}'] for i in range(nc)]
+        for i, cid in enumerate(cids):
+            spec['choices'].append([cid, f'b{i}', [f'o{j}' for j in range(no)]])
         spec['cc'] = [[ctype, cids]]
         yield spec
     elif placement == 'second_under_first':
@@ -201,3 +210,51 @@ def _cc_specs(ctype, nc, no, placement, tier):
         add_choice(spec, cids[-1], 'a', no)
         spec['cc'] = [[ctype, cids]]
         yield spec
+
+
+def dvlink(tier):
+    """Linked design-variable nodes (discrete/discrete, continuous/continuous with different bounds)."""
+    for sk in (['none', 'one'] if tier == 'quick' else ['none', 'one', 'nested']):
+        anchors = ANCHORS[sk]
+        for a1 in anchors:
+            for a2 in anchors:
+                for k1, k2 in ((dict(options=3), dict(options=3)), (dict(options=2), dict(options=2)),
+                               (dict(bounds=[0.0, 1.0]), dict(bounds=[-1.0, 3.0])),
+                               (dict(bounds=[2.0, 4.0]), dict(bounds=[0.0, 1.0]))):
+                    spec = skel(sk)
+                    spec['dv'] = {'D1': dict(anchor=a1, **k1), 'D2': dict(anchor=a2, **k2)}
+                    spec['cc'] = [['LINKED', ['D1', 'D2']]]
+                    yield spec
+
+
+def con2(tier):
+    """CON-2: con1 plus two-choice skeletons with connectors tied to options of different choices, grouping
+    nodes on both sides over mixed permanent/conditional members, exclusions into conditional and permanent targets."""
+    yield from con1(tier)
+    D = D_Q if tier == 'quick' else D_T
+    for sk, (sa, ta) in (('indep', (('a', 'o1'), ('p1', 'a'))), ('nested', (('a', 'q1'), ('o1', 'a')))):
+        for ds in itertools.product(D, repeat=2):
+            for dt in itertools.product(D, repeat=2):
+                srcs = [(ds[0], False, sa[0]), (ds[1], False, sa[1])]
+                tgts = [(dt[0], False, ta[0]), (dt[1], False, ta[1])]
+                yield _conn_spec(sk, srcs, tgts)
+                yield _conn_spec(sk, srcs, tgts, excl=[('S1', 'T1')])
+                if sk == 'indep':
+                    yield _conn_spec(sk, srcs, tgts, excl=[('S2', 'T2')])
+    # grouping on both sides
+    for ds in itertools.product(D, repeat=2):
+        for dt in itertools.product(D, repeat=2):
+            spec = _conn_spec('one', [(ds[0], False, 'a'), (ds[1], False, 'o1')], [(dt[0], False, 'a'), (dt[1], True, 'o2')])
+            spec['grp'] = {'G': ['S1', 'S2'], 'H': ['T1', 'T2']}
+            spec['cch'] = [['K0', ['G'], ['H'], []]]
+            yield spec
+    if tier != 'quick':
+        D3 = ['1', '0..1', '0..*', '1..2']
+        for sk in ('one', 'indep'):
+            anchors = ANCHORS[sk][:3]
+            for ds in itertools.product(D3, repeat=3):
+                for dt in itertools.product(D3, repeat=2):
+                    srcs = [(ds[i], i == 2, anchors[i]) for i in range(3)]
+                    tgts = [(dt[0], False, 'a'), (dt[1], True, anchors[1])]
+                    yield _conn_spec(sk, srcs, tgts)
+                    yield _conn_spec(sk, tgts, srcs, excl=[('S2', 'T3')])
